@@ -133,6 +133,7 @@ def compact_size_uint(integer: int) -> bytes:
         return b"\xfe" + integer.to_bytes(4, "little")
     elif integer >= 0x100000000 and integer <= 0xFFFFFFFFFFFFFFFF:
         return b"\xff" + integer.to_bytes(8, "little")
+    raise ValueError("integer too large for compact size uint")
 
 
 def parse_compact_size_uint(payload: bytes) -> typing.Tuple[int, bytes]:
